@@ -295,6 +295,16 @@ def o_C04(sc):
             e = 2 * np.sum(np.triu(D, 1)) / ((n - 1) * nsp)
             if not feq(F, e):
                 return 'C04 synfire indicator %r expected %r' % (F, e)
+        PM = quiet(spk.spike_train_order_profile, L, **ikw, **mt, **kw)
+        acc = {}
+        for a_ in range(n):
+            for b_ in range(a_ + 1, n):
+                pb = quiet(spk.spike_train_order_profile, sel[a_], sel[b_], **mt, **kw)
+                for x, y, mp in list(zip(pb.x, pb.y, pb.mp))[1:-1]:
+                    e = acc.setdefault(float(x), [0.0, 0.0]); e[0] += y; e[1] += mp
+        gotm = {float(x): [y, mp] for x, y, mp in list(zip(PM.x, PM.y, PM.mp))[1:-1]}
+        if set(acc) != set(gotm) or any(acc[k_][0] != gotm[k_][0] or acc[k_][1] != gotm[k_][1] for k_ in acc):
+            return 'C04 multivariate order profile (indices=%s) is not the sum of the pair profiles taken in selection order' % (idx,)
         V = quiet(spk.spike_directionality_values, L, **ikw, **mt, **kw)
         for k in range(n):
             tot = np.zeros(len(sel[k].spikes))
@@ -718,6 +728,20 @@ def o_C16(sc):
                 other = s2 if xq in s1 else s1
                 if not any(abs(xq - z) < mt for z in other):
                     return 'C16 max_tau=%s: order profile marks spike %s beyond max_tau' % (mt, x)
+    ivs_ = [None] + ([tuple(float(v) for v in sc['interval'])] if sc.get('interval') else [])
+    for mt, p in ((t1, p1), (t2, p2)):
+        for iv in ivs_:
+            ent = [(x, y, mp) for x, y, mp in list(zip(p.x, p.y, p.mp))[1:-1] if iv is None or iv[0] < x < iv[1]]
+            c = sum(e[1] for e in ent); m_ = sum(e[2] for e in ent)
+            e_ = 1.0 if m_ == 0 else c / m_
+            k = {'max_tau': float(mt)}
+            if iv is not None:
+                k['interval'] = iv
+            v = quiet(spk.spike_sync, a, b, **k, **kw)
+            v2 = quiet(spk.spike_sync, [a, b], **k, **kw)
+            M = quiet(spk.spike_sync_matrix, [a, b], **k, **kw)
+            if not (feq(v, e_) and feq(v2, e_) and feq(M[0, 1], e_)):
+                return 'C16 max_tau=%s interval=%s: spike_sync %r / list form %r / matrix %r, but the coincidences within max_tau give %r' % (mt, iv, v, v2, M[0, 1], e_)
     if np.any(p2.y < p1.y) or np.any(np.abs(o2.y) < np.abs(o1.y)) or len(f2[0].spikes) < len(f1[0].spikes):
         return 'C16 enlarging max_tau from %s to %s removes a coincidence' % (t1, t2)
     if np.any(np.abs(pn.y) < np.abs(p2.y)):
@@ -1070,6 +1094,23 @@ def o_C10(sc):
         ey += [ev(x[k], +1), ev(x[k + 1], -1)]
     if not aeq(px, [float(v) for v in ex], 0) or not aeq(py, [float(v) for v in ey]):
         return 'C10 plottable arrays do not trace the pieces'
+    # the same questions after the object has been rescaled / added to / copied (exactness must
+    # not depend on what was asked before)
+    for step, c in (('mul_scalar(-2)', Fr(-2)), ('mul_scalar(1/2)', Fr(1, 2))):
+        quiet(g.mul_scalar, float(c))
+        full = full * c
+        if not feq(quiet(g.integral), full) or not feq(quiet(g.avrg), full / (x[-1] - x[0])):
+            return 'C10 after %s: integral() = %r, exact %s' % (step, quiet(g.integral), float(full))
+        if not feq(quiet(g.integral, (float(x[0]), float(x[-1]))), full):
+            return 'C10 after %s: integral over the full support differs from the exact value' % step
+        h = quiet(g.copy)
+        if not feq(quiet(h.integral), full):
+            return 'C10 after %s: integral() of a copy = %r, exact %s' % (step, quiet(h.integral), float(full))
+    g2 = mk_func(kind, f)
+    quiet(g.add, g2)
+    full = full + integral_exact(kind, f, x[0], x[-1])
+    if not feq(quiet(g.integral), full) or not feq(quiet(g.avrg), full / (x[-1] - x[0])):
+        return 'C10 after add: integral() = %r, exact %s' % (quiet(g.integral), float(full))
     return None
 
 
